@@ -198,3 +198,14 @@ def replay(body, repo):
     print('observed :', out)
     print('required :', v.get('required'))
     return 0 if out == v.get('required') else 1
+
+MANIFEST = {
+    'text': 'Full. Table theorems (wc_exact, wc_involution, wobble_exact, rna_is_dna_TU, bin_exact, meet_exact) are decided by the '
+            'Lean kernel over tables regenerated from iupac_utils.py on every run; sequence-level theorems (mapSeq_pointwise, '
+            'mapSeq_reverse, reverse_variants, wc/wobble_sequence_exact, add_constraints_spec, add_constraints_error_iff) hold for '
+            'sequences of any length by induction on the hand model, which is tied to the five Python functions by a correspondence '
+            'stream (all codes, all code pairs, random sequences).',
+    'note': 'Trusted: Lean kernel; translator/gen.py transcribes the dict/list literals; the sequence functions are hand-modelled '
+            '(Model/Iupac.lean) and only tied by differential testing; axioms limited to propext, Classical.choice, Quot.sound.',
+    'technique': 'Lean 4 theorems over tables regenerated from source (decide) + induction on hand model; correspondence check',
+}
